@@ -22,7 +22,7 @@ ASSUMPTIONS = [
 ]
 MONITORS = ("independent walk + lstat/readlink/inode of the workspace; audit-hook recorder proving zero filesystem mutations in "
             "workspace and cache during the second checkout; byte snapshot of the cache; link record checked through get_unused_links")
-REQUIRED_COUNTERS = ["renamed_files_between_versions", "state_reused_after_close", "priors_with_dangling_symlink", "priors_linked_into_another_store", "workspace_path_spelled_non_canonically", "priors_with_interrupted_copy_leftover", "dir_removed_between_checkouts", "priors_with_foreign_hardlinks", "sequences", "second_checkouts_audited", "relinks_checked", "files_link_type_checked", "cache_snapshots_compared",
+REQUIRED_COUNTERS = ["workspace_path_relative_to_cwd", "renamed_files_between_versions", "state_reused_after_close", "priors_with_dangling_symlink", "priors_linked_into_another_store", "workspace_path_spelled_non_canonically", "priors_with_interrupted_copy_leftover", "dir_removed_between_checkouts", "priors_with_foreign_hardlinks", "sequences", "second_checkouts_audited", "relinks_checked", "files_link_type_checked", "cache_snapshots_compared",
                      "link_records_checked", "pair/copy->hardlink", "pair/hardlink->symlink", "pair/symlink->copy", "pair/copy->symlink",
                      "pair/hardlink->copy", "pair/symlink->hardlink", "store/local", "store/base", "single_file_cases"]
 
@@ -86,10 +86,15 @@ def run_shard(ctx):
             ws = os.path.join(d, "ws", "out")
             os.makedirs(os.path.dirname(ws))
             # the path handed to checkout may be a legal non-canonical spelling of the workspace path
-            spelling = rng.choice(["canonical"] * 5 + ["trailing-separator", "dot", "dotdot"]) if not single else "canonical"
-            wsp = {"canonical": ws, "trailing-separator": ws + os.sep, "dot": os.path.join(d, "ws", ".", "out"), "dotdot": os.path.join(d, "ws", "out", "..", "out")}[spelling]
+            spelling = rng.choice(["canonical"] * 5 + ["trailing-separator", "dot", "dotdot", "cwd-relative-bare", "cwd-relative-dotslash", "cwd-relative-nested"]) if not single else "canonical"
+            wsp = {"canonical": ws, "trailing-separator": ws + os.sep, "dot": os.path.join(d, "ws", ".", "out"), "dotdot": os.path.join(d, "ws", "out", "..", "out"),
+                   "cwd-relative-bare": "out", "cwd-relative-dotslash": os.path.join(".", "out"), "cwd-relative-nested": os.path.join("ws", "out")}[spelling]
             if spelling != "canonical":
                 res.count("workspace_path_spelled_non_canonically")
+            if spelling.startswith("cwd-relative"):
+                # the workspace is named relative to the process's current directory (restored by the caller of one())
+                os.chdir(d if spelling == "cwd-relative-nested" else os.path.dirname(ws))
+                res.count("workspace_path_relative_to_cwd")
             # prior state: checkout of T or O with the existing link type, then user edits
             from_other = (not single) and rng.random() < 0.5
             prior_files = dict(O if from_other else T)
@@ -265,7 +270,13 @@ def run_shard(ctx):
             env.reset_staging()
             ctx.drop(d)
 
-        ctx.guard(case, one)
+        def one_in_place(one=one):
+            try:
+                one()
+            finally:
+                os.chdir("/")
+
+        ctx.guard(case, one_in_place)
 
 
 def check_link_record(res, state, ws, fs, case, cfg, when):
